@@ -3,6 +3,17 @@
     and the remaining public operations of Loop3D / Polygon3D called directly on the same loops and polygons and on
     loops derived from them (cases [CQ], below). *)
 From G3 Require Export Run.PolyCommon Model.Json Model.PolyAux.
+From G3 Require Import Run.FastNum32 Model.Triangle Model.Triangulation.
+
+Definition query := (N * N * N * list spec_float * N * list spec_float * LoopIn)%type.
+(** the runner text is written once, in a section over the number instance: [C12] on [NumF] (f64 build), [C12f32] on
+    [NumF32fast] (= [NumF32], Run/FastNum32Proof.v) for the build with `--features float`; bit for bit in both *)
+Inductive c12case :=
+| CM (c : LoopIn * list LoopIn * list spec_float * (N * LoopIn) * (N * LoopIn))
+| CQ (npoly : N) (an : list spec_float) (loops : list LoopIn) (qs : list query).
+
+Section WithInstance.
+Context {NK : Num float}.
 
 Definition eq_vlists (a b : list (V3 K)) : bool := sfl_eqb (flat a) (flat b).
 (** tag = 1 + number of holes
@@ -37,9 +48,6 @@ Definition chk_merge (c : LoopIn * list LoopIn * list spec_float * (N * LoopIn) 
     Classes: booleans 0 false / 1 true, values 0 = Ok; 100 + class = Err; 99 = panic (any site).
     The subject loops travel as their complete observable state; when [npoly] > 0 the polygon is
     (loops[0]; loops[1 .. npoly-1]; area, normal = [an]). *)
-From G3 Require Import Model.Triangle Model.Triangulation.
-
-Definition query := (N * N * N * list spec_float * N * list spec_float * LoopIn)%type.
 Definition bclass (r : res bool) : N := match r with Ok false => 0 | Ok true => 1 | Err c => 100 + c | Panic _ => 99 end%N.
 Definition vclass {A} (r : res A) : N := match r with Ok _ => 0 | Err c => 100 + c | Panic _ => 99 end%N.
 Definition seg_of (a : list spec_float) : Seg K := seg_new (v_of a 0) (v_of a 3).
@@ -82,9 +90,6 @@ Fixpoint chk_queries (loops : list (Loop K)) (P : option (Poly K)) (qs : list qu
   end.
 Definition first_op (qs : list query) : N := match qs with (op, _, _, _, _, _, _) :: _ => op | [] => 0%N end.
 
-Inductive c12case :=
-| CM (c : LoopIn * list LoopIn * list spec_float * (N * LoopIn) * (N * LoopIn))
-| CQ (npoly : N) (an : list spec_float) (loops : list LoopIn) (qs : list query).
 
 (** tags: [CM] as above (1 .. 34); [CQ]: 100 * (operation of the first query of the group: 1 is_diagonal, 2 sanitize,
     3 contains_segment + inner, 5 getters + remove + index) + outcome bits seen in the group
@@ -104,6 +109,11 @@ Definition chk (c : c12case) : N :=
     end
   end.
 
+End WithInstance.
+
 Module C12.
-  Definition run := run_cases chk.
+  Definition run := run_cases (@chk NumF).
 End C12.
+Module C12f32.
+  Definition run := run_cases (@chk NumF32fast).
+End C12f32.
